@@ -90,6 +90,7 @@ func (h *JSONHybridHandler) Handle(ctx context.Context, r slog.Record) (err erro
 	msg = msg[:len(msg)-1]
 	data := newJSONHybridMessage(r.Level, msg)
 
+	simPoint("jsonhybrid.Handle", h.mu)
 	h.mu.Lock()
 	defer h.mu.Unlock()
 
